@@ -269,3 +269,57 @@ func VH_C13_S5_merged_index_gc() {
 	s.checkAllKnown("after-gc-restart", "F25", known)
 	s.close()
 }
+
+// C13-S5f: groups of THREE colliding keys. Two members are written (and, optionally, read, so
+// the pair is already in the collision table), then the third member is written into the next
+// data file and another member is overwritten after it (the tree slot no longer points at the
+// third key). Every key must keep its own latest value: read twice, after a clean restart
+// with all/no index files, after a GC pass with or without merging, and a delete of another
+// member followed by a delete of the third key must both succeed and leave the last member
+// readable.
+func VH_C13_S5_three_keys() {
+	collideHash()
+	s := newScen(768, false, "ca", "cb", "cc", "kx")
+	s.distinct = true
+	s.noVersion = map[string]bool{"ca": true, "cb": true, "cc": true}
+	s.setS("ca")
+	s.setS("cb")
+	s.setS("kx") // file0 full
+	pairRead := vrt.Bool("pair-read-before-third")
+	if pairRead {
+		s.checkAll("pair") // enters ca/cb into the collision table
+	}
+	s.setS("cc") // file1: third member of the group
+	other := []string{"ca", "cb"}[vrt.Choice("other-member", 2)]
+	then := vrt.Choice("then", 3)
+	if then == 2 {
+		// F26: while the collision is not recorded (no member read since written, no merge) the
+		// shared tree slot stands for whichever member was written last: after the delete of one
+		// member the delete of another is refused as NOT_FOUND
+		s.knownID, s.knownCond = "F26", !pairRead
+		s.del(other)
+		s.del("cc")
+		s.knownID, s.knownCond = "", false
+		s.setS("kx") // file1 full
+	} else {
+		s.setS(other)
+		s.setS("kx") // file1 full
+	}
+	s.setS("kx") // head
+	s.flush()
+	readAfter := vrt.Bool("read-after-writes")
+	if readAfter {
+		s.checkAll("after-writes")
+	}
+	switch then {
+	case 0:
+		s.reopen(vrt.Choice("rm", 2) * 7)
+	case 1:
+		gcMerge := vrt.Bool("merge")
+		s.gc(0, 1, gcMerge)
+	}
+	// F26 (same cause): an unrecorded three-key group is not reconstructed by a restart or a pass
+	s.checkAllKnown("final-first-read", "F26", !pairRead && !readAfter)
+	s.checkAllKnown("final-second-read", "F26", !pairRead && !readAfter)
+	s.close()
+}
